@@ -103,7 +103,7 @@ def gen_c12(rng, big=False):
                 body = '{"jsonrpc": "2.0", "method": "echo", "params": ["%s"], "id": 5}' % tok
                 ops.append(["rawtrunc", body, rng.randrange(0, len(body))])
             elif k < 0.96 and life != "handle-loop":
-                ops.append(["abort", rng.choice(["connect-close", "half-headers", "no-read", "garbage"]), tok])
+                ops.append(["abort", rng.choice(["connect-close", "half-headers", "no-read", "garbage", "no-length"]), tok])
             else:
                 ops.append(["sleep", rng.choice([0.25, 0.5, 1.0])])
         clients.append({"version": rng.choice([None, None, 2.0, 1.0]), "history": False, "ops": ops})
@@ -204,6 +204,8 @@ def parse(program, s, run):
             for mi, m in enumerate(reqs):
                 if m[2] is None:
                     continue
+                if m[1].get("content-length") is None:
+                    continue  # a request that does not declare its length is not a well-formed exchange: no reference reply
                 try:
                     text = m[2].decode("utf-8")
                 except UnicodeDecodeError:
@@ -369,6 +371,8 @@ class C12Scenario(object):
             p["client_died_mid_body"] = 1
         if any(o["kind"] == "abort" for o in h.ops.values()):
             p["client_aborted_connection"] = 1
+        if any(o["kind"] == "abort" and o["op"][1] == "no-length" for o in h.ops.values()):
+            p["request_without_length"] = 1
         if program["server"].get("npool") == "shared":
             p["shared_request_and_notification_pool"] = 1
         if program["server"].get("abstract"):
